@@ -70,7 +70,7 @@ func concBody(sc *concScenario, x *explore.Exec) (*sched.Outcome, [2]string, str
 	}
 	out := s.Run()
 	if out.Aborted != "" {
-		return out, [2]string{}, out.Aborted + fmt.Sprintf(" (blocked: %v)", out.Blocked)
+		return out, [2]string{}, concAbortText(out)
 	}
 	var v [2]string
 	for i := 0; i < 2; i++ {
@@ -133,6 +133,26 @@ func concPasses(bound int, statementLevel bool) []concPass {
 	return []concPass{{1, true}, {bound, false}}
 }
 
+// concAbortText renders an aborted execution; one given up by the scheduler's watchdog (a thread blocked
+// outside the scheduler on a primitive of a dependency) is marked INCONCLUSIVE: it says nothing about
+// the code under test and is never a violation.
+func concAbortText(out *sched.Outcome) string {
+	if out.Aborted == sched.StuckAborted {
+		return "INCONCLUSIVE " + out.Aborted + fmt.Sprintf(" (blocked: %v)", out.Blocked)
+	}
+	return out.Aborted + fmt.Sprintf(" (blocked: %v)", out.Blocked)
+}
+
+// concInconclusive handles such an execution: counted, noted, the run is not exhaustive.
+func concInconclusive(c *Ctx, berr string) bool {
+	if !strings.HasPrefix(berr, "INCONCLUSIVE") {
+		return false
+	}
+	c.Inc("executions_given_up_thread_blocked_outside_the_scheduler")
+	c.Unstable("%s", berr)
+	return true
+}
+
 // concExplore runs the scenarios; violations are keyed <id>/concurrent/<key>.
 func concExplore(c *Ctx, id string, scs []*concScenario, boundQuick, boundThorough int, everyStatementOf ...string) {
 	if os.Getenv("VERIF_WIDE") != "1" {
@@ -189,6 +209,9 @@ func concExplore(c *Ctx, id string, scs []*concScenario, boundQuick, boundThorou
 			stats := explore.Run(explore.Config{MaxCost: pass.bound, Deadline: c.Deadline, Shard: c.Shard, Shards: c.Shards, ShardDepth: 2, TolerateDivergence: true, MaxDivergences: 16}, func(x *explore.Exec, own bool) {
 				out, v, berr := concBody(sc, x)
 				if !own {
+					return
+				}
+				if concInconclusive(c, berr) {
 					return
 				}
 				if strings.HasPrefix(berr, "HARNESS") {
